@@ -132,6 +132,11 @@ func runCBC(c cbcCase, r *pb.Rec) error {
 	if !bytes.Equal(plain, c.Plain) || !bytes.Equal(secret, c.Secret) {
 		return fmt.Errorf("Encrypt modified its arguments")
 	}
+	encKeep := string(enc)
+	cryptz.Encrypt("another plaintext of another length", "another secret")
+	if string(enc) != encKeep {
+		return fmt.Errorf("the slice returned by Encrypt changed after a later Encrypt call")
+	}
 	raw, derr := base64.StdEncoding.DecodeString(string(enc))
 	if derr != nil {
 		return fmt.Errorf("Encrypt output is not standard base64: %v", derr)
